@@ -77,7 +77,10 @@ class CBuild(object):
     def link(self, name, main_src, extra_cflags=()):
         """Compile main_src and link it with all library objects into out/<name>."""
         exe = os.path.join(self.out, name)
-        rc, out = _cc([self.cc] + cflags(self.extra) + list(extra_cflags) + [main_src, '-o', exe] + self.objs +
+        srcs = [main_src]
+        if os.path.basename(main_src) != 'compiler.c':
+            srcs.append(os.path.join(SHIM, 'logged_levels.c'))
+        rc, out = _cc([self.cc] + cflags(self.extra) + list(extra_cflags) + srcs + ['-o', exe] + self.objs +
                       GLIB_LIBS + ['-lffi', '-lm', '-ldl'])
         if rc != 0:
             raise CBuildError('linking %s failed: %s' % (name, out[-1500:]))
